@@ -458,6 +458,11 @@ fn run_case(ctx: &mut Ctx, case: &Case) {
     let tr = Tr::new();
     let case_json = || serde_json::to_value(case).unwrap();
     ctx.announce(case_json);
+    // The file system as an environment answer: the path already holds a longer file full of other bytes
+    // (a name reused for a shorter vector). The length of the leftover is derived from the case itself, so
+    // a replay sees the same environment.
+    let junk = if serde_json::to_string(case).map(|s| s.len() % 5 == 0).unwrap_or(false) { 65536 } else { 4096 };
+    std::fs::write(&path, vec![0xEEu8; junk]).expect("scratch file");
     let (out, fm, kind) = match case {
         Case::Int { width, buf_items, n, stream, how, ending } => {
             let buf_bits = buffer_bits(buf_items.map(|b| b * width));
